@@ -6,6 +6,8 @@
 package zzvrf
 
 import (
+	"crypto/sha256"
+	"encoding/binary"
 	"encoding/hex"
 	"encoding/json"
 	"fmt"
@@ -124,6 +126,16 @@ func WithTail(base []byte, tag string) []byte {
 	copy(out, base)
 	copy(out[len(base):cap(base)], t[len(base):])
 	return out
+}
+
+// Hash32 is an injective function (a, b) -> 32 bytes ("no hash collisions").
+// The engine treats it as an uninterpreted function with distinctness axioms.
+func Hash32(tag string, a, b uint64) []byte {
+	var buf [16]byte
+	binary.BigEndian.PutUint64(buf[:8], a)
+	binary.BigEndian.PutUint64(buf[8:], b)
+	h := sha256.Sum256(append([]byte(tag), buf[:]...))
+	return h[:]
 }
 
 // Str returns a string of concrete length n with symbolic content.
